@@ -286,7 +286,7 @@ fn child_replay(args: &Args, replay: &std::path::Path, out: &std::path::Path, on
         Ok(c) => c,
         Err(e) => return Child::Failed(format!("spawn: {e}")),
     };
-    let deadline = std::time::Instant::now() + std::time::Duration::from_secs(secs);
+    let deadline = std::time::Instant::now() + std::time::Duration::from_secs(secs.saturating_mul(10));
     loop {
         match ch.try_wait() {
             Ok(Some(st)) => {
@@ -300,7 +300,11 @@ fn child_replay(args: &Args, replay: &std::path::Path, out: &std::path::Path, on
                 };
             }
             Ok(None) => {
-                if std::time::Instant::now() > deadline {
+                // The budget is CPU time of the child (a non-terminating braid spins), so a slow,
+                // heavily loaded machine cannot turn a terminating run into a false alarm; the
+                // wall-clock deadline (10x the budget) is only a backstop.
+                let cpu = child_cpu_secs(ch.id());
+                if cpu.is_some_and(|c| c > secs) || std::time::Instant::now() > deadline {
                     let _ = ch.kill();
                     let _ = ch.wait();
                     return Child::TimedOut;
@@ -312,7 +316,18 @@ fn child_replay(args: &Args, replay: &std::path::Path, out: &std::path::Path, on
     }
 }
 
-/// watchdog budget for one replayed case list
+/// user+system CPU seconds consumed so far by process `pid` (Linux /proc; None if unavailable)
+fn child_cpu_secs(pid: u32) -> Option<u64> {
+    let stat = std::fs::read_to_string(format!("/proc/{pid}/stat")).ok()?;
+    // fields after the command name (which may contain spaces) start behind the last ')'
+    let rest = &stat[stat.rfind(')')? + 2..];
+    let f: Vec<&str> = rest.split(' ').collect();
+    let utime: u64 = f.get(11)?.parse().ok()?;
+    let stime: u64 = f.get(12)?.parse().ok()?;
+    Some((utime + stime) / 100)
+}
+
+/// watchdog budget (CPU seconds) for one replayed case list
 fn watchdog_secs() -> u64 {
     std::env::var("VH_WATCHDOG").ok().and_then(|v| v.parse().ok()).unwrap_or(100)
 }
